@@ -260,9 +260,28 @@ def faultcrash_worker(ctx, job):
     return res
 
 
+def short_worker(ctx, job):
+    """No crash: every write of the writer is answered short once (a legal POSIX answer). A file must never be
+    published under an address that is not the digest of its bytes (the driver of C02's short-answer mode is reused,
+    only the content-area verdicts are kept)."""
+    import checks.c02 as c02
+    r = c02.short_worker(ctx, job)
+    keep = []
+    for v in r["violations"]:
+        if "content-file-not-matching-address" in v["sig"]:
+            v = dict(v)
+            v["sig"] = "content:" + v["sig"]
+            keep.append(v)
+    r["violations"] = keep
+    r["samples"] = [{"kind": "short-answers", "flavour": job["flavour"], "entry": job["entry"], "n": job["n"]}]
+    return r
+
+
 def worker(ctx, job):
     if job["kind"] == "reject":
         return reject_worker(ctx, job)
+    if job["kind"] == "short":
+        return short_worker(ctx, job)
     if job["kind"] == "faultcrash":
         return faultcrash_worker(ctx, job)
     res = V.new()
@@ -344,6 +363,7 @@ def main(tier, seed=0):
                 jobs.append({"kind": "crash", "sc": pr["sc"], "crashes": cps[i:i + chunk], "trace": pr.get("trace")})
         jobs.sort(key=lambda j: (j["sc"]["init"], j["sc"]["n"], j["sc"]["algo"], j["sc"]["id"]))
         jobs = [{"kind": "reject", "flavour": f, "side": sd} for f, sd in (("sync", "s"), ("astd", "a"), ("tok", "a"), ("astd", "s"))] + jobs
+        jobs = [{"kind": "short", "flavour": f, "side": sd, "entry": e, "n": 4097} for f, sd in (("sync", "s"), ("astd", "a"), ("tok", "a")) for e in ("oneshot", "hash", "session", "session_declared")] + jobs
         fc = [sc for sc in scs if sc["init"] == "cold" and sc["n"] in (5, 4097) and (tier != "quick" or sc["entry"] in ("write_sync", "sw_declared", "write", "aw_plain"))]
         jobs = [{"kind": "faultcrash", "sc": sc} for sc in fc] + jobs
         for r in pool.imap_unordered(R._work, jobs, chunksize=1):
